@@ -26,3 +26,11 @@ def streams(tier, seed):
 
 def search_streams(tier, seed, diffs):
     return [dict(tag="search%d" % k, count=50000, seed=seed * 7919 + k) for k in range(4)]
+
+MANIFEST = dict(
+    level_text=("Theorems C06_machine_correct / C06_cut_is_eval / C06_eval_canonical (Coq; all expressions, widths, assignments, providers): "
+                "the stack-machine model of eval.rs returns exactly the SMT-LIB value, canonical, with provided inner values short-circuiting. "
+                "Tie to /repo: the extracted machine and the real eval_expr run on the same generated (expression, assignment, cut) cases on every run."),
+    level_note=("Trusted: Coq kernel; hand-written model tied only by differential execution (generator-bounded); baa specified by Spec/BV.v, "
+                "not verified. Two baa defects are recorded as known findings, one patronus defect was fixed."),
+)
